@@ -108,6 +108,11 @@ func init() {
 			sl.Arr.Elems[0] = e.constString("/gopath")
 			return sl
 		},
+		// no go.mod (or any other file content) is modelled: reads fail
+		"os.ReadFile": func(e *Exec, fn *ssa.Function, a []Value) Value {
+			e.note("summary:os.ReadFile fails")
+			return TupleV{e.zero(types.NewSlice(types.Typ[types.Byte])), e.newError("os.ReadFile")}
+		},
 		// the file system is an arbitrary oracle: any answer, per probe
 		repoStack + "isFile": func(e *Exec, fn *ssa.Function, a []Value) Value {
 			if e.files == nil {
